@@ -89,6 +89,18 @@ def replay(case):
                 exact(xs, 'tdvp2site')
         except Exception as e:
             out.append(('tdvp2site:exception:%s' % type(e).__name__, repr(e)))
+    # normalisation switched on: the initial state has unit 2-norm and the evolution is unitary, so every entry of the
+    # trajectory is still exp(-i k h H) x0 at maximal ranks
+    if full:
+        for name, f, kw2 in (('tdvp1site', ode.tdvp1site, {}), ('tdvp2site', ode.tdvp2site, dict(threshold=0, max_rank=64))):
+            if name == 'tdvp2site' and d < 2:
+                continue
+            try:
+                xs = traj_ok(f(H, x0, h, n, normalize=2, **kw2), name + ':normalize')
+                if xs is not None:
+                    exact(xs, name + ':normalize')
+            except Exception as e:
+                out.append(('%s:normalize:exception:%s' % (name, type(e).__name__), repr(e)))
     try:
         xs = traj_ok(ode.tdvp(H, x0, h, n, threshold=0, max_rank=64), 'tdvp')
         if xs is not None and full:
